@@ -75,6 +75,10 @@ fn safe_table(r: &mut Rng, depth: usize) -> V {
 }
 
 /// Replaces the node at a random position by `with` (map values / array elements / optionally a key).
+pub fn plant_pub(r: &mut Rng, v: &mut V, with: &V, as_key: bool) {
+	plant(r, v, with, as_key);
+}
+
 fn plant(r: &mut Rng, v: &mut V, with: &V, as_key: bool) {
 	match v {
 		V::M(m) if !m.is_empty() => {
